@@ -395,6 +395,7 @@ def thread_worker(task):
     C.rec["extra"]["schedules"] = stats["executions"]
     C.rec["extra"]["max_points"] = stats["max_points"]
     C.rec["extra"]["schedules_with_lock_contention"] = stats["contended"]
+    C.rec["extra"]["determinism_replays"] = stats.get("determinism_replays", 0)
     C.rec["extra"]["schedules_truly_interleaved"] = stats["interleaved"]
     C.rec["extra"]["thread_outcomes"] = outcomes
     if stats["capped"]:
